@@ -611,6 +611,9 @@ func (fr *frame) unop(instr *ssa.UnOp, x value) value {
 		}
 		return unopNegConcrete(x)
 	case token.MUL:
+		if sr, ok := x.(*symRef); ok {
+			return norm(copyValue(fr.indexRead(sr.cells, sr.idx, sr.t)), instr.Type())
+		}
 		p := x.(*value)
 		if p == nil {
 			fr.i.rtPanic(fr, "invalid memory address or nil pointer dereference")
